@@ -40,7 +40,9 @@ Judge(ev) ==
       diags == \A i \in 1..n : (S[i].det /\ S[i].diag) => ev.obs[i].diag
       \* an entry that is not visited leaves no trace at all
       silent == \A i \in 1..n : (S[i].det /\ ~S[i].visit /\ ev.obs[i].lines >= 0) => ev.obs[i].lines = 0
-  IN [ok |-> perEntry /\ total /\ diags /\ silent, perEntry |-> perEntry, total |-> total, diags |-> diags, silent |-> silent,
+      \* a rejected expression: one diagnostic, no output at all
+      global == GlobalDiag(ev.flags) => (ev.total = 0 /\ ev.stderr)
+  IN [ok |-> perEntry /\ total /\ diags /\ silent /\ global, perEntry |-> perEntry, total |-> total, diags |-> diags, silent |-> silent /\ global,
       want |-> [i \in 1..n |-> [records |-> S[i].records, owed |-> owed[i], prefix |-> S[i].prefix, diag |-> S[i].diag, det |-> S[i].det]]]
 
 Step ==
